@@ -353,6 +353,41 @@ def bounded_inline_lang(ctx, b):
         b.guard(("inline_lang", codes), one, sample={"codes": codes, "inline_lang_codes_sharing_a_primary_subtag": len({c_[:2] for c_ in codes}) < len(codes)})
 
 
+def sami_secondary_sync(c):
+    """SAMIWriter._recreate_sync for a language that is NOT the primary one, + _find_closest_sync (A: stub DOM): the body
+    holds 0-3 SYNC blocks with non-decreasing start times (any times), a paragraph of the other language is to be placed
+    at an arbitrary time.  The block it gets has exactly that start time: the FIRST existing block with that time if
+    there is one (nothing is added then), else one new block, put where the start times stay non-decreasing; the blocks
+    that were there stay, in their order, with their paragraphs."""
+    from pycaption.sami import SAMIWriter
+    from refs.stubdom import StubSoup, StubTag
+    n = c.pick("syncs_written_so_far", [0, 1, 2, 3])
+    ts = [c.int(f"t{k}", 0, 10 ** 8) for k in range(n)]
+    for a, b in zip(ts, ts[1:]):
+        c.assume(a <= b)
+    time = c.int("time", 0, 10 ** 8)
+    soup = StubSoup(("sami", ("head", ("style",)), ("body",)))
+    old = []
+    for k, t in enumerate(ts):
+        sy = soup.new_tag("sync", start=t)
+        sy.append(StubTag("p", {"class": "en", "of": k}))
+        soup.body.append(sy)
+        old.append(sy)
+    w = c.new(SAMIWriter, open_span=False, last_time=None)
+    r = c.call(SAMIWriter._recreate_sync, w, soup, "fr", "en", time, compare=False)
+    doc, sync = r
+    now = [t for t in soup.body.children if isinstance(t, StubTag)]
+    same = [k for k, t in enumerate(ts) if c.truth(t == time)]
+    c.ensure("the_block_has_the_time_asked_for", c.truth(sync.attrs["start"] == time) and any(sync is t for t in now) and doc is soup)
+    c.ensure("old_blocks_stay_in_their_order_with_their_paragraphs", [t for t in now if any(t is o for o in old)] == old
+             and all(len(o.children) == 1 and o.children[0].attrs.get("of") == k for k, o in enumerate(old)))
+    if same:
+        c.ensure("an_existing_block_of_that_time_is_used_the_first_one", sync is old[same[0]] and len(now) == n)
+    else:
+        c.ensure("one_new_block", len(now) == n + 1 and not any(sync is o for o in old) and not sync.children)
+        c.ensure("start_times_stay_non_decreasing", all(c.truth(a.attrs["start"] <= b.attrs["start"]) for a, b in zip(now, now[1:])))
+
+
 def run(ctx):
     P = ctx.prove
     P("base.CaptionSet.get_languages", get_languages_order, functions=[CS.get_languages])
@@ -370,6 +405,8 @@ def run(ctx):
     import props.C01_read as RS
     RS.prove_sami_read_skeleton(ctx)          # (every declared language translated once, in order, stored under its own code)
     P("sami.SAMIParser._find_lang", sami_find_lang, functions=[SAMIParser._find_lang])
+    from pycaption.sami import SAMIWriter as _SW
+    P("sami.SAMIWriter._recreate_sync[secondary language]", sami_secondary_sync, functions=[_SW._recreate_sync, _SW._find_closest_sync], crosscheck=False)
     # the merge of concurrent captions (legacy / single-position DFXP writers) works language by language: a language
     # without captions is left alone and receives nothing from its neighbours (contract shared with C19)
     P("sami.SAMIWriter._recreate_p_lang", sami_paragraph_class, functions=[SAMIWriter._recreate_p_lang])
